@@ -37,6 +37,8 @@ type VerifRegistry struct {
 	ShutdownFlag  bool
 	TriggerIDs    []uint64
 	Subscriptions []SubscriptionIdentifier
+	// Updaters: the updater of every registered trigger (identity of the trigger).
+	Updaters []SubscriptionUpdater
 }
 
 func (r *Resolver) VerifRegistry() VerifRegistry {
@@ -44,6 +46,7 @@ func (r *Resolver) VerifRegistry() VerifRegistry {
 	for id, trig := range r.triggers {
 		v.TriggerSubs += len(trig.subscriptions)
 		v.TriggerIDs = append(v.TriggerIDs, id)
+		v.Updaters = append(v.Updaters, trig.updater)
 	}
 	for _, m := range r.subscriptionsByConnection {
 		v.ByConnection += len(m)
